@@ -2,8 +2,10 @@ package props
 
 import (
 	"encoding/json"
+	"sort"
 
 	"verif/internal/ast"
+	"verif/internal/refsem"
 	"verif/internal/wire"
 )
 
@@ -66,4 +68,13 @@ func badModes(t *wire.Ty, out *[]string) {
 	for _, b := range t.Brs {
 		badModes(b.T, out)
 	}
+}
+
+func sortStrings(xs []string) { sort.Strings(xs) }
+
+type refsemResult struct{ events []refsem.Event }
+
+func (r *refsemResult) linearization(observed []string) (bool, bool, string) {
+	rr := &refsem.Result{Events: r.events}
+	return rr.Linearization(observed)
 }
